@@ -955,6 +955,13 @@ void Interp::run()
       }
       VectorDouble tb = tab(nvar * na);
       std::string rad = radix(nvar);
+      if (getenv("C07_DEBUG"))
+      {
+        int sc = m.selCol();
+        diag(fmt("model sel col %d name %s value %g ; library: nsel %d name %s value %g getSelection %g", sc, sc >= 0 ? m.cols[(size_t)sc].name.c_str() : "-", sc >= 0 ? m.cols[(size_t)sc].v[0] : -1.,
+                 db.getLocatorNumber(ELoc::SEL), db.getLocatorNumber(ELoc::SEL) > 0 ? db.getNameByLocator(ELoc::SEL, 0).c_str() : "-", db.getLocatorNumber(ELoc::SEL) > 0 ? db.getFromLocator(ELoc::SEL, 0, 0) : -1., (double)db.getSelection(0)));
+      }
+      if (getenv("C07_DEBUG")) diag(fmt("ADD_TAB useSel %d model active %d library active %d nech %d/%d ncol %d", (int)useSel, na, db.getSampleNumber(useSel), m.nech, db.getSampleNumber(false), db.getColumnNumber()));
       int ret         = db.addColumns(tb, rad, LOC(t), li, useSel, vini, nvar);
       std::vector<std::vector<double>> v((size_t)nvar, std::vector<double>((size_t)m.nech, vini));
       int first;
@@ -1481,6 +1488,10 @@ void Interp::run()
       auto& lin  = m.roles[(size_t)tin];
       auto& lout = m.roles[(size_t)tout];
       if (uniqueLoc(tout) && lin.size() + lout.size() > 1) return skip();
+      // (gaps sub) an empty slot moved into a single-rank role such as the selection has no defined meaning (the library then sees a
+      // selection without column): not generated
+      if (uniqueLoc(tout))
+        for (int u : lin) if (u < 0 || m.colOfUid(u) < 0) return skip();
       addressed();
       db.switchLocator(LOC(tin), LOC(tout));
       lout.insert(lout.end(), lin.begin(), lin.end());
@@ -1757,6 +1768,7 @@ static void runDb(const DbCase& c, Ctx& ctx)
     Interp it(r, o);
     it.run();
     ctx.label(std::string("op:") + opName(o.code));
+    if (getenv("C07_DEBUG")) diag(fmt("step %d %s: library SEL entries %d, model sel col %d, ncol %d/%d", (int)s, r.opn.c_str(), r.db->getLocatorNumber(ELoc::SEL), r.m.selCol(), r.db->getColumnNumber(), r.m.ncol()));
     if (r.opn.find('#') != std::string::npos) ctx.label("variant:" + r.opn);
     h.add(o.code).add(o.bad);
     if (r.stop) break;
